@@ -451,14 +451,15 @@ class C13(PropBase):
                 tail = [qf, qg, rr.choice([{"op": "clear", "space": "A", "name": "f"},
                                            {"op": "set_value", "space": "A", "name": "f", "args": [1], "value": 900090, "how": "setitem"},
                                            {"op": "clear_at", "space": "A", "name": "g", "args": [2]}])]
-                for _ in range(rr.choice([0, 0, 1, 3])):
-                    op = run.mach.next_op(WEIGHTS)
-                    if op:
-                        tail.append(op)
-                tail += [rr.choice([{"op": "del_ref", "space": "B", "name": "k"}, {"op": "del_ref", "space": "B", "name": "k"},
-                                    {"op": "set_ref", "space": "B", "name": "k", "value": {"t": "int", "v": 900001 + rr.randrange(50)}}]),
-                         qg, qf, {"op": "checkpoint", "extra": [qf, qg], "final": True}]
                 for op in tail:
+                    run.step(op)
+                for _ in range(rr.choice([0, 0, 1, 3])):
+                    op = run.mach.next_op(WEIGHTS)      # (generated against the state the previous one left)
+                    if op:
+                        run.step(op)
+                for op in (rr.choice([{"op": "del_ref", "space": "B", "name": "k"}, {"op": "del_ref", "space": "B", "name": "k"},
+                                      {"op": "set_ref", "space": "B", "name": "k", "value": {"t": "int", "v": 900001 + rr.randrange(50)}}]),
+                           qg, qf, {"op": "checkpoint", "extra": [qf, qg], "final": True}):
                     run.step(op)
             if cfg.get("gadget_recalc_item"):
                 for op in ({"op": "set_value", "space": "B", "name": "f", "args": [0], "value": 900077, "how": "setitem"},
